@@ -10,7 +10,7 @@ exe=$(python3 - <<PY
 import sys; sys.argv=['check']; sys.path.insert(0,'/verif')
 import importlib.machinery, importlib.util
 l=importlib.machinery.SourceFileLoader('chk','/verif/check'); spec=importlib.util.spec_from_loader('chk',l); m=importlib.util.module_from_spec(spec); l.exec_module(m)
-print(m.build_harness('$prop'))
+print(m.build_harness("$prop", extra_ld=m.extra_ld_of("$prop")))
 PY
 )
 for f in replays/${3:-$prop}/*.case; do r=$($exe --replay $f --verif-dir /verif 2>/dev/null | cut -c1-160); echo "$(basename $f): $r"; done
